@@ -309,7 +309,7 @@ def run_shard(desc, ctx):
         rng = ctx.rng
         extra = ['ж', '中', '\t', '~', '%', ',', ';', '?', '|', '&', '2', 'Z', '_']
         for _ in range(desc['random']):
-            L = rng.randint(4, 30)
+            L = rng.randint(4, 30) if rng.random() < 0.85 else rng.randint(31, 160)
             p = ''.join(rng.choice(ALPHA) if rng.random() < 0.9 else rng.choice(extra) for _ in range(L))
             for ti in range(len(TEMPLATES)):
                 mon.inline(p, rng.randint(0, 2), ti, 'inline:random')
@@ -319,7 +319,7 @@ def run_shard(desc, ctx):
             shape = rng.choice(SHAPES)
             r = rng.random()
             if r < 0.8:
-                text = [rng.choice(LINES) for _ in range(rng.randint(0, 6))]
+                text = [rng.choice(LINES) for _ in range(rng.randint(0, 6) if rng.random() < 0.85 else rng.randint(7, 40))]
             elif r < 0.9:
                 text = rng.choice(['foo', ' a b ', 'ul>li*3', '$# ${1}', 'l1\nl2', ' x\n  y\n'])
             else:
